@@ -15,7 +15,7 @@ Inductive shape (e : env) (w : world) (o : op) : list bo -> Prop :=
     shape e w o (upd i (slept_bo e b c f s maxms errid) (w_bos w))
 | Sh_reset i b m : nth_error (w_bos w) i = Some b -> (m = b_max b \/ ~ not_resetmax o) ->
     shape e w o (upd i (reset_bo b m) (w_bos w))
-| Sh_ctx i b c : nth_error (w_bos w) i = Some b -> shape e w o (upd i (with_ctx b c) (w_bos w))
+| Sh_ctx i b c k : nth_error (w_bos w) i = Some b -> shape e w o (upd i (with_ctx b c k) (w_bos w))
 | Sh_merge i j b f : o = OMerge i j -> nth_error (w_bos w) i = Some b -> nth_error (w_bos w) j = Some f ->
     on_chain (length (w_bos w)) (w_bos w) (b_parent f) i = true ->
     shape e w o (upd j (kill_bo f) (upd i (merged b f) (w_bos w))).
@@ -41,6 +41,7 @@ Proof.
   - dm; simpl; apply Sh_same.
   - dm; simpl; apply Sh_same.
   - apply Sh_same.
+  - dm; simpl; try apply Sh_same. eapply Sh_ctx; eauto.
   - dm; simpl; try apply Sh_same. eapply Sh_ctx; eauto.
 Qed.
 
@@ -195,7 +196,7 @@ Proof.
   pose proof (pick_fn_wf _ _ _ _ _ _ _ Ab Hc Hf) as Wf. pose proof (sleep_ok_range _ _ _ Wf Hs) as Rg.
   destruct (cut_range s maxms ltac:(lia)) as [Hcut Hm]. destruct Wf as [Wc Wb].
   assert (real = cut s maxms).
-  { unfold kill_res in R. destruct (killed_sig _ b =? 0); destruct R as [R|[sg R]]; congruence. }
+  { unfold kill_res in R. destruct (kill_eff _ b =? 0); destruct R as [R|[sg R]]; congruence. }
   exists b, f. repeat split; auto; try lia.
   - intros J. destruct (sleep_ok_expo _ _ Hs J); auto. pose proof (expo_range (f_base f) (f_cap f) (f_att f)). lia.
   - intros P. apply Z.ltb_lt in P. rewrite P in Hx. simpl in Hx. unfold exceeded in Hx.
